@@ -21,10 +21,14 @@ def parse_jaqal_output_list(circuit, output):
     :returns: The parsed output.
     :rtype: ExecutionResult
     """
-    circuit = expand_macros(fill_in_let(expand_subcircuits(circuit)))
-    visitor = DiscoverSubcircuits()
-    w = OutputParser(visitor.visit(circuit), output)
-    w.visit(circuit)
+    try:
+        circuit = expand_macros(fill_in_let(expand_subcircuits(circuit)))
+        visitor = DiscoverSubcircuits()
+        w = OutputParser(visitor.visit(circuit), output)
+        w.visit(circuit)
+    except RecursionError:
+        # The passes and walkers recurse over the nesting of blocks
+        raise JaqalError("Program is nested too deeply") from None
     return ExecutionResult(w.subcircuits, w.res)
 
 
